@@ -127,7 +127,13 @@ def main(prop, tier, seed):
             for x, y in want:
                 if tr(float(x)) != y:
                     V("reader-value", "TableReader on file %r: f(%s) = %r, tabulated %r" % (text, x, tr(float(x)), y), dict(case=c, text=text), no_final_newline=nonl)
-        # ---- (c) plot rows
+        # ---- (c) plot rows: the TLC-emitted ranges, and long / decimal / descending ranges whose rows follow from the same rule
+        # x_i = lowx + i (highx - lowx)/steps (computed here in exact rationals)
+        from fractions import Fraction as _F
+        for lo_, hi_, n_ in (("0", "12", 10000), ("0", "12.51", 100), ("1.57", "8.29", 100), ("0.1", "10.0", 5000), ("2", "1", 10), ("0.3", "0.9", 3), ("-1.5", "7.7", 1001)):
+            a, b = _F(lo_), _F(hi_)
+            plot.append(dict(lo=[a.numerator, a.denominator], hi=[b.numerator, b.denominator], steps=n_,
+                             xs=[[(a + i * (b - a) / n_).numerator, (a + i * (b - a) / n_).denominator] for i in range(n_)]))
         for c in plot:
             lo, hi, n = fl(c["lo"]), fl(c["hi"]), c["steps"]
             f = lambda x: 3.0 * x * x - x + 0.5
@@ -170,6 +176,9 @@ def main(prop, tier, seed):
                 "x/y": "x : %s\ny : %s\n" % (" ".join(xs), " ".join(ys)),
                 "xy": "xy : %s\n" % "\n     ".join("%s %s" % p for p in zip(xs, ys)),
                 "x/y+interpolation": "interpolation : cubic_spline\ny : %s\nx : %s\n" % ("  ".join(ys), "\n    ".join(xs)),
+                # pairs are pairs however they are spread over the lines of the value
+                "xy-two-per-line": "xy : %s\n" % "\n     ".join(" ".join("%s %s" % p for p in list(zip(xs, ys))[k:k + 2]) for k in range(0, len(xs), 2)),
+                "xy-one-line": "xy : %s\n" % "  ".join("%s %s" % p for p in zip(xs, ys)),
             }
             fns = {}
             for name, body in variants.items():
@@ -180,7 +189,7 @@ def main(prop, tier, seed):
                     fsum = [p for p in tab.potentials if p.speciesB == "A"][0]
                 except Exception as e:
                     V("table-form-refused", "[Table-Form] %s with %d points refused: %s: %s" % (name, len(xs), type(e).__name__, str(e)[:200]), dict(case=c, ini=text))
-            if len(fns) != 3:
+            if len(fns) != len(variants):
                 continue
             run.replayed += 1
             run.distinct("table:%d" % idx)
@@ -201,9 +210,9 @@ def main(prop, tier, seed):
                 e = q["e"]
                 run.evaluations += 1
                 sc = 1 + abs(fl(e["v"])) + abs(fl(e["d1"])) + abs(fl(e["d2"]))
-                vals = [fns[k].energy(x) for k in ("x/y", "xy", "x/y+interpolation")]
-                if vals[0] != vals[1] or vals[0] != vals[2]:
-                    V("xy-equivalence", "table form x=%s: at %s the x/y form gives %r, the xy form %r, the reordered form %r" % (xs, x, vals[0], vals[1], vals[2]), dict(case=c))
+                vals = [fns[k].energy(x) for k in ("x/y", "xy", "x/y+interpolation", "xy-two-per-line", "xy-one-line")]
+                if any(v != vals[0] for v in vals[1:]):
+                    V("xy-equivalence", "table form x=%s: at %s the x/y form gives %r, the xy form %r, the reordered form %r, xy with two pairs per line %r, xy on one line %r" % (xs, x, vals[0], vals[1], vals[2], vals[3], vals[4]), dict(case=c))
                     break
                 if abs(vals[0] - fl(e["v"])) > 1e-8 * sc:
                     V("cubic-identity", "table form of the cubic %s sampled at %s: f(%s) = %r, the cubic gives %r" % ([dec(k) for k in c["cubic"]], xs, x, vals[0], fl(e["v"])), dict(case=c))
